@@ -10,6 +10,7 @@
 from __future__ import annotations
 
 import collections
+import itertools
 import datetime
 import glob
 import logging
@@ -350,13 +351,23 @@ class Engine:
         self.runLock = threading.RLock()
 
         self._clock_periodic = reactivex.interval(5.0)
-        self._manual_emitter = reactivex.subject.Subject()
+        # VV: emit_now() pushes snapshots to _manual_source. A single observe_on() hands them over to the trigger pool so
+        # that the caller is never blocked by the observers AND the snapshots are delivered in the order they were
+        # emitted (scheduling each of them independently lets the pool reorder 2 emissions that happen in quick
+        # succession, e.g. "alive again" and "dead again" of a restart whose submission fails).
+        self._manual_source = reactivex.subject.Subject()
+        self._manual_emitter = self._manual_source.pipe(op.observe_on(Engine.triggerPoolScheduler))
+
+        # VV: Snapshots of the state travel through thread-pools before _create_state_updates() compares them with
+        # the last known state, so they may arrive out of order. Number them when they are taken so that a snapshot
+        # which is older than one that has already been processed can be recognised (and dropped).
+        self._snapshot_counter = itertools.count()
 
         # VV: _manual_emitter will use whichever scheduler invokes its on_next() (i.e. manualEmissions in emit_now)
         self._detailedState = reactivex.merge(
             self._clock_periodic.pipe(
                 # VV: The Clock periodic blindly echoes what's in stateDictionary at the moment of trigger
-                op.map(lambda x: self.stateDictionary)
+                op.map(lambda x: self._stamp_snapshot(self.stateDictionary))
             ),
             # VV: The manual emitter produces a dictionary with the same format as self.stateDictionary
             self._manual_emitter,
@@ -396,17 +407,19 @@ class Engine:
         # VV: Use a thread out of the manualEmissions pool to schedule the on_next(), we don't want to block the
         # calling thread till the observers consume the emission
         what = what or {}
-        current = self.stateDictionary
+        current = self._stamp_snapshot(self.stateDictionary)
         current.update(what)
 
-        reactivex.just(current).pipe(
-            op.observe_on(Engine.triggerPoolScheduler)
-        ).subscribe(on_next=lambda x: self._manual_emitter.on_next(x),
-                    on_error=CheckState)
+        self._manual_source.on_next(current)
+
+    def _stamp_snapshot(self, snapshot: Dict[str, Any]) -> Dict[str, Any]:
+        """Tags a snapshot of the state with the order in which it was taken (see _create_state_updates())"""
+        snapshot['snapshotId'] = next(self._snapshot_counter)
+        return snapshot
 
     def _emit_no_more_manual(self):
         self.log.debug("Asking manual emitter to terminate")
-        self._manual_emitter.on_completed()
+        self._manual_source.on_completed()
 
     def optimizer_enable(self, optimizer, disable_optimizer_cb):
         # type: (experiment.runtime.optimizer.Optimizer, Callable[[],None]) -> None
@@ -1409,9 +1422,20 @@ class Engine:
                 'lastTaskRunTime',
             ]
 
+            latest_snapshot = [-1]
+
             def StateFilter(e):
                 # Enters as a tuple with two elements (state, component)
                 newState = e[0]
+
+                # VV: Drop snapshots that were taken before one we have already processed. A stale snapshot (e.g. one
+                # of the dead engine which is delivered after the update that reports its restart) would otherwise
+                # flip the state back, and the next real transition would go unnoticed by whoever tracks the changes.
+                snapshot_id = newState.pop('snapshotId', None)
+                if snapshot_id is not None:
+                    if snapshot_id < latest_snapshot[0]:
+                        return {}, state, e[1]
+                    latest_snapshot[0] = snapshot_id
                 filtered = {
                     k: newState[k] for k in list(newState.keys()) if newState[k] != state[k]
                 }
